@@ -161,7 +161,7 @@ func (s *StructSpec) String() string { return s.Type().String() }
 func defaultFor(kind string) string {
 	switch kind {
 	case kInt, kInt64, kUint8, kPtrInt:
-		return "default=7"
+		return "default=5"
 	case kFloat64:
 		return "default=1.5"
 	case kString:
@@ -352,7 +352,7 @@ func atoms() []*Node {
 	a := []*Node{
 		num("7"), nil, num("0"), num("-1"), num("2147483648"), num("1.5"), num("1.0"),
 		str("x"), str(""), str("7"), boolean(true), boolean(false), null(),
-		arr(), arr(str("x"), str("7")), arr(num("7")), arr(null()), arr(str("x"), null()),
+		arr(), arr(str("x"), str("7")), arr(num("7")), arr(null()), arr(str("x"), null()), arr(null(), str("x")),
 		obj(), obj(kv("k", num("7"))), obj(kv("K", num("7")), kv("k2", num("-1"))), obj(kv("k", str("x"))),
 		obj(kv("k", num("1.0"))), obj(kv("k", null())),
 	}
@@ -456,7 +456,8 @@ func fieldValues(f FieldSpec, mode int) []*Node {
 		} else {
 			out = append(out, arr(inner[0], inner[len(inner)-1]))
 		}
-		out = append(out, arr(), arr(null()), arr(num("7")), arr(inner[0], null()))
+		out = append(out, arr(inner[0], inner[0], inner[len(inner)-1]), arr(inner[len(inner)-1], inner[0], inner[0]))
+		out = append(out, arr(), arr(null()), arr(num("7")), arr(inner[0], null()), arr(null(), inner[0]))
 	case kStructMap:
 		out = append(out, obj(kv("k", inner[0])), nil)
 		for _, d := range inner[1:] {
